@@ -54,6 +54,35 @@ driver_fn!(driver_c15, "C15", |s| s.sends >= 20);
 driver_fn!(driver_c16, "C16", |s| s.sends >= 20);
 driver_fn!(driver_c19, "C19", |s| s.own_addr_records > 0);
 
+macro_rules! exh_fn {
+    ($name:ident, $id:expr) => {
+        fn $name(ctx: &Ctx, case: u64, acc: &mut Acc) -> Verdict {
+            let depth = if ctx.tier == crate::run::Tier::Quick { 4 } else { 5 };
+            crate::work::exh::exh_case(ctx, case, acc, Arm::only($id), depth)
+        }
+    };
+}
+exh_fn!(exh_c07, "C07");
+exh_fn!(exh_c08, "C08");
+exh_fn!(exh_c09, "C09");
+exh_fn!(exh_c10, "C10");
+exh_fn!(exh_c11, "C11");
+exh_fn!(exh_c12, "C12");
+exh_fn!(exh_c13, "C13");
+exh_fn!(exh_c15, "C15");
+exh_fn!(exh_c19, "C19");
+
+macro_rules! sweep_fn {
+    ($name:ident, $id:expr) => {
+        fn $name(ctx: &Ctx, case: u64, acc: &mut Acc) -> Verdict {
+            crate::work::sweep::sweep_case(ctx, case, acc, Arm::only($id))
+        }
+    };
+}
+sweep_fn!(sweep_c07, "C07");
+sweep_fn!(sweep_c15, "C15");
+sweep_fn!(sweep_c16, "C16");
+
 const ASSUME: &[&str] = &[
     "user-supplied Identity has a total conflict order; Codec/Handler/Runtime do not panic",
     "the harness Runtime hands every scheduled timer back at most once (exactly once for C13)",
@@ -69,6 +98,8 @@ pub fn c07() -> Check {
         workloads: vec![
             Workload { name: "chaos", f: chaos_c07, quick: 20_000, thorough: 1_000_000, flav: Flav::Checked },
             Workload { name: "driver", f: driver_c07, quick: 30_000, thorough: 1_500_000, flav: Flav::Checked },
+            Workload { name: "exh", f: exh_c07, quick: 1_024, thorough: 1_024, flav: Flav::Checked },
+            Workload { name: "sweep", f: sweep_c07, quick: 1_100, thorough: 55_000, flav: Flav::Checked },
         ],
         exhaustive: false,
     }
@@ -83,6 +114,8 @@ pub fn c08() -> Check {
         workloads: vec![
             Workload { name: "chaos", f: chaos_c08, quick: 20_000, thorough: 1_000_000, flav: Flav::Checked },
             Workload { name: "driver", f: driver_c08, quick: 30_000, thorough: 1_500_000, flav: Flav::Checked },
+            Workload { name: "exh", f: exh_c08, quick: 1_024, thorough: 1_024, flav: Flav::Checked },
+            Workload { name: "accrt", f: crate::checks::c08x::accrt_case, quick: 8_000, thorough: 400_000, flav: Flav::Checked },
         ],
         exhaustive: false,
     }
@@ -97,6 +130,7 @@ pub fn c09() -> Check {
         workloads: vec![
             Workload { name: "chaos", f: chaos_c09, quick: 20_000, thorough: 1_000_000, flav: Flav::Checked },
             Workload { name: "driver", f: driver_c09, quick: 30_000, thorough: 1_500_000, flav: Flav::Checked },
+            Workload { name: "exh", f: exh_c09, quick: 1_024, thorough: 1_024, flav: Flav::Checked },
         ],
         exhaustive: false,
     }
@@ -111,6 +145,7 @@ pub fn c10() -> Check {
         workloads: vec![
             Workload { name: "chaos", f: chaos_c10, quick: 20_000, thorough: 1_000_000, flav: Flav::Checked },
             Workload { name: "driver", f: driver_c10, quick: 30_000, thorough: 1_500_000, flav: Flav::Checked },
+            Workload { name: "exh", f: exh_c10, quick: 1_024, thorough: 1_024, flav: Flav::Checked },
         ],
         exhaustive: false,
     }
@@ -125,6 +160,7 @@ pub fn c11() -> Check {
         workloads: vec![
             Workload { name: "chaos", f: chaos_c11, quick: 20_000, thorough: 1_000_000, flav: Flav::Checked },
             Workload { name: "driver", f: driver_c11, quick: 30_000, thorough: 1_500_000, flav: Flav::Checked },
+            Workload { name: "exh", f: exh_c11, quick: 1_024, thorough: 1_024, flav: Flav::Checked },
         ],
         exhaustive: false,
     }
@@ -139,6 +175,7 @@ pub fn c12() -> Check {
         workloads: vec![
             Workload { name: "chaos", f: chaos_c12, quick: 20_000, thorough: 1_000_000, flav: Flav::Checked },
             Workload { name: "driver", f: driver_c12, quick: 30_000, thorough: 1_500_000, flav: Flav::Checked },
+            Workload { name: "exh", f: exh_c12, quick: 1_024, thorough: 1_024, flav: Flav::Checked },
         ],
         exhaustive: false,
     }
@@ -153,6 +190,7 @@ pub fn c13() -> Check {
         workloads: vec![
             Workload { name: "chaos", f: chaos_c13, quick: 20_000, thorough: 1_000_000, flav: Flav::Checked },
             Workload { name: "driver", f: driver_c13, quick: 30_000, thorough: 1_500_000, flav: Flav::Checked },
+            Workload { name: "exh", f: exh_c13, quick: 1_024, thorough: 1_024, flav: Flav::Checked },
         ],
         exhaustive: false,
     }
@@ -167,6 +205,8 @@ pub fn c15() -> Check {
         workloads: vec![
             Workload { name: "chaos", f: chaos_c15, quick: 20_000, thorough: 1_000_000, flav: Flav::Checked },
             Workload { name: "driver", f: driver_c15, quick: 30_000, thorough: 1_500_000, flav: Flav::Checked },
+            Workload { name: "exh", f: exh_c15, quick: 1_024, thorough: 1_024, flav: Flav::Checked },
+            Workload { name: "sweep", f: sweep_c15, quick: 1_100, thorough: 55_000, flav: Flav::Checked },
         ],
         exhaustive: false,
     }
@@ -181,6 +221,7 @@ pub fn c16() -> Check {
         workloads: vec![
             Workload { name: "chaos", f: chaos_c16, quick: 20_000, thorough: 1_000_000, flav: Flav::Both },
             Workload { name: "driver", f: driver_c16, quick: 30_000, thorough: 1_500_000, flav: Flav::Both },
+            Workload { name: "sweep", f: sweep_c16, quick: 1_100, thorough: 55_000, flav: Flav::Both },
         ],
         exhaustive: false,
     }
@@ -195,6 +236,7 @@ pub fn c19() -> Check {
         workloads: vec![
             Workload { name: "chaos", f: chaos_c19, quick: 20_000, thorough: 1_000_000, flav: Flav::Checked },
             Workload { name: "driver", f: driver_c19, quick: 30_000, thorough: 1_500_000, flav: Flav::Checked },
+            Workload { name: "exh", f: exh_c19, quick: 1_024, thorough: 1_024, flav: Flav::Checked },
         ],
         exhaustive: false,
     }
